@@ -91,7 +91,19 @@ fn v1_kind_name(e: &v1::ParseError) -> &'static str {
 fn show_v1_addr(a: &v1::Addresses) -> String { format!("{:?}", a) }
 
 /// compares the byte entry point (and, for valid UTF-8, the text entry points) with the oracle
-fn check_v1(input: &[u8]) -> Option<Mismatch> {
+/// lvl 0: acceptance and decoded result only; 1: + the incomplete / complete classification; 2: + the exact error kind
+fn check_v1(input: &[u8]) -> Option<Mismatch> { check_v1_lvl(input, 2) }
+fn v1_same(a: &V1Out, b: &V1Out, lvl: u8) -> bool {
+    match (a, b) {
+        (V1Out::Accept(x, y), V1Out::Accept(p, q)) => x == p && y == q,
+        (V1Out::Accept(..), _) | (_, V1Out::Accept(..)) => false,
+        _ if lvl == 0 => true,
+        (V1Out::InvalidUtf8, V1Out::InvalidUtf8) => true,
+        (V1Out::Reject(x), V1Out::Reject(y)) => if lvl >= 2 { x == y } else { v1_incomplete_kind(x) == v1_incomplete_kind(y) },
+        (V1Out::InvalidUtf8, V1Out::Reject(k)) | (V1Out::Reject(k), V1Out::InvalidUtf8) => lvl < 2 && !v1_incomplete_kind(k),
+    }
+}
+fn check_v1_lvl(input: &[u8], lvl: u8) -> Option<Mismatch> {
     let want = oracle_v1_bytes(input);
     let got = std::panic::catch_unwind(|| v1::Header::try_from(input));
     let got = match got { Ok(g) => g, Err(_) => return Some(Mismatch { case: hex(input), expected: format!("{:?}", want), actual: "PANIC in v1::Header::try_from(&[u8])".into() }) };
@@ -100,11 +112,11 @@ fn check_v1(input: &[u8]) -> Option<Mismatch> {
         Err(v1::BinaryParseError::InvalidUtf8(_)) => V1Out::InvalidUtf8,
         Err(v1::BinaryParseError::Parse(e)) => V1Out::Reject(v1_kind_name(e).to_string()),
     };
-    if actual != want {
+    if !v1_same(&actual, &want, lvl) {
         return Some(Mismatch { case: hex(input), expected: format!("bytes entry: {:?}", want), actual: format!("{:?}", actual) });
     }
     let inc_want = matches!(&want, V1Out::Reject(k) if v1_incomplete_kind(k));
-    if got.is_incomplete() != inc_want || got.is_complete() == inc_want {
+    if lvl >= 1 && (got.is_incomplete() != inc_want || got.is_complete() == inc_want) {
         return Some(Mismatch { case: hex(input), expected: format!("is_incomplete == {}", inc_want), actual: format!("is_incomplete == {}", got.is_incomplete()) });
     }
     if let Ok(h) = &got {
@@ -129,14 +141,18 @@ fn check_v1(input: &[u8]) -> Option<Mismatch> {
             Ok(h) => V1Out::Accept(show_v1_addr(&h.addresses), h.header.as_bytes().to_vec()),
             Err(e) => V1Out::Reject(v1_kind_name(e).to_string()),
         };
-        if actual_s != want_s {
+        if !v1_same(&actual_s, &want_s, lvl) {
             return Some(Mismatch { case: hex(input), expected: format!("text entry: {:?}", want_s), actual: format!("{:?}", actual_s) });
+        }
+        let inc_s = matches!(&want_s, V1Out::Reject(k) if v1_incomplete_kind(k));
+        if lvl >= 1 && got_s.is_incomplete() != inc_s {
+            return Some(Mismatch { case: hex(input), expected: format!("text entry: is_incomplete == {}", inc_s), actual: format!("is_incomplete == {}", got_s.is_incomplete()) });
         }
         let fa = text.parse::<v1::Addresses>();
         let fh = text.parse::<v1::Header<'static>>();
         let same = match (&got_s, &fa, &fh) {
             (Ok(h), Ok(a), Ok(h2)) => h.addresses == *a && *h == *h2,
-            (Err(e), Err(e1), Err(e2)) => e == e1 && e == e2,
+            (Err(e), Err(e1), Err(e2)) => lvl < 2 || (e == e1 && e == e2),
             _ => false,
         };
         if !same { return Some(Mismatch { case: hex(input), expected: "FromStr impls agree with try_from(&str)".into(), actual: format!("{:?} / {:?} / {:?}", got_s, fa, fh) }); }
@@ -177,20 +193,31 @@ fn v2_cases() -> Vec<Vec<u8>> {
     out
 }
 
-fn check_v2(input: &[u8]) -> Option<Mismatch> {
+fn check_v2(input: &[u8]) -> Option<Mismatch> { check_v2_lvl(input, 2) }
+/// lvl 0: acceptance, decoded result and views; 1: + incomplete classification and the counts it carries (C17); 2: + the exact terminal error
+fn check_v2_lvl(input: &[u8], lvl: u8) -> Option<Mismatch> {
     let want = oracle_v2(input);
     let got = match std::panic::catch_unwind(|| v2::Header::try_from(input)) { Ok(g) => g, Err(_) => return Some(Mismatch { case: hex(input), expected: format!("{:?}", want), actual: "PANIC in v2::Header::try_from".into() }) };
     let actual = match &got {
         Ok(h) => V2Out::Accept { command: h.command as u8, protocol: h.protocol as u8, family: h.address_family() as u8, total: h.header.len(), addresses: format!("{:?}", h.addresses) },
         Err(e) => V2Out::Reject(format!("{:?}", e)),
     };
-    if actual != want { return Some(Mismatch { case: hex(input), expected: format!("{:?}", want), actual: format!("{:?}", actual) }); }
-    let inc = matches!(&got, Err(v2::ParseError::Incomplete(_)) | Err(v2::ParseError::Partial(_, _)));
-    if got.is_incomplete() != inc { return Some(Mismatch { case: hex(input), expected: format!("is_incomplete == {}", inc), actual: format!("{}", got.is_incomplete()) }); }
-    if got.is_complete() == inc { return Some(Mismatch { case: hex(input), expected: format!("is_complete == {}", !inc), actual: format!("{}", got.is_complete()) }); }
-    if let Err(e) = &got {
-        if e.is_incomplete() != inc || e.is_complete() == inc {
-            return Some(Mismatch { case: hex(input), expected: format!("error.is_incomplete == {} and is_complete == {}", inc, !inc), actual: format!("is_incomplete == {}, is_complete == {}", e.is_incomplete(), e.is_complete()) });
+    let is_inc = |o: &V2Out| matches!(o, V2Out::Reject(t) if t.starts_with("Incomplete(") || t.starts_with("Partial("));
+    let agree = match (&actual, &want) {
+        (V2Out::Accept { .. }, _) | (_, V2Out::Accept { .. }) => actual == want,
+        _ if lvl == 0 => true,
+        _ if lvl == 1 => is_inc(&actual) == is_inc(&want) && (!is_inc(&want) || actual == want),
+        _ => actual == want,
+    };
+    if !agree { return Some(Mismatch { case: hex(input), expected: format!("{:?}", want), actual: format!("{:?}", actual) }); }
+    let inc = is_inc(&want);
+    if lvl >= 1 {
+        if got.is_incomplete() != inc { return Some(Mismatch { case: hex(input), expected: format!("is_incomplete == {}", inc), actual: format!("{}", got.is_incomplete()) }); }
+        if got.is_complete() == inc { return Some(Mismatch { case: hex(input), expected: format!("is_complete == {}", !inc), actual: format!("{}", got.is_complete()) }); }
+        if let Err(e) = &got {
+            if e.is_incomplete() != inc || e.is_complete() == inc {
+                return Some(Mismatch { case: hex(input), expected: format!("error.is_incomplete == {} and is_complete == {}", inc, !inc), actual: format!("is_incomplete == {}, is_complete == {}", e.is_incomplete(), e.is_complete()) });
+            }
         }
     }
     if let Ok(h) = &got {
@@ -430,21 +457,149 @@ fn check_auto(input: &[u8]) -> Option<Mismatch> {
     None
 }
 
+// ---------------------------------------------------------------------------------------------
+// property-own domains (used when only a clause STRONGER than the property failed: the verdict function fixes
+// the error kind of every input, the properties below do not)
+// ---------------------------------------------------------------------------------------------
+
+/// C12 (v1 part): a complete well-formed line with exactly ONE element replaced by a value invalid for it
+/// -> (input, the kind that must be reported).  The replacements contain no SP / CR, so the fields stay where they are.
+fn c12_v1_cases() -> Vec<(Vec<u8>, &'static str)> {
+    let mut out: Vec<(Vec<u8>, &'static str)> = Vec::new();
+    let lines: [(&str, [&str; 4]); 4] = [
+        ("TCP4", ["1.2.3.4", "5.6.7.8", "80", "443"]),
+        ("TCP4", ["255.255.255.255", "0.0.0.0", "65535", "0"]),
+        ("TCP6", ["::1", "ffff::2", "1", "65535"]),
+        ("TCP6", ["2001:db8::1", "2001:db8::2", "51234", "443"]),
+    ];
+    let mk = |kw: &str, proto: &str, f: [&str; 4], end: &str| format!("{} {} {} {} {} {}{}", kw, proto, f[0], f[1], f[2], f[3], end).into_bytes();
+    for (proto, f) in lines {
+        let v4 = proto == "TCP4";
+        for kw in ["PROXYX", "proxy", "PROXZ", "XPROXY", "PR0XY"] { out.push((mk(kw, proto, f, "\r\n"), "InvalidPrefix")); }
+        for pr in ["TCP5", "tcp4", "TCP44", "UNKNOWNX", "TCP", "UDP4", "unknown"] { out.push((mk("PROXY", pr, f, "\r\n"), "InvalidProtocol")); }
+        let bad_addr: &[&str] = if v4 { &["::1", "256.1.1.1", "1.2.3", "1.2.3.4.5", "01.2.3.4", "a.b.c.d", "1.2.3.4x", "+1.2.3.4"] } else { &["1.2.3.4", ":::1", "12345::1", "g::1", "1:2:3:4:5:6:7:8:9", "::1x"] };
+        for a in bad_addr {
+            let mut g = f; g[0] = a; out.push((mk("PROXY", proto, g, "\r\n"), "InvalidSourceAddress"));
+            let mut g = f; g[1] = a; out.push((mk("PROXY", proto, g, "\r\n"), "InvalidDestinationAddress"));
+        }
+        for pt in ["+80", "080", "00", "65536", "99999", "-1", "1e3", "0x50", "80a", "4294967296"] {
+            let mut g = f; g[2] = pt; out.push((mk("PROXY", proto, g, "\r\n"), "InvalidSourcePort"));
+            let mut g = f; g[3] = pt; out.push((mk("PROXY", proto, g, "\r\n"), "InvalidDestinationPort"));
+        }
+        for end in ["\rX", "\r\r", "\r\t", "\r\0", "\rGET"] { out.push((mk("PROXY", proto, f, end), "InvalidSuffix")); }
+    }
+    for end in ["\rX", "\r\r", "\r "] { out.push((format!("PROXY UNKNOWN{}", end).into_bytes(), "InvalidSuffix")); out.push((format!("PROXY UNKNOWN a b{}", end).into_bytes(), "InvalidSuffix")); }
+    for n in [108usize, 109, 200] { let mut l = b"PROXY UNKNOWN ".to_vec(); while l.len() < n - 2 { l.push(b'x'); } l.extend_from_slice(b"\r\n"); out.push((l, "HeaderTooLong")); }
+    for n in [107usize, 108, 300] { out.push((vec![b'P'; n], "HeaderTooLong")); }
+    out.push((b"PROXY UNKNOWN \xff\xfe\r\n".to_vec(), "InvalidUtf8"));
+    out.push((b"PROXY TCP4 1.2.3.4 5.6.7.8 80 443\r\xff".to_vec(), "InvalidUtf8"));
+    out
+}
+
+fn check_c12_domain() -> (Option<Mismatch>, usize) {
+    let mut n = 0;
+    for (input, want) in c12_v1_cases() {
+        n += 1;
+        let got = match std::panic::catch_unwind(|| v1::Header::try_from(&input[..])) { Ok(g) => g, Err(_) => return (Some(Mismatch { case: hex(&input), expected: want.to_string(), actual: "PANIC".into() }), n) };
+        let (kind, incomplete) = match &got {
+            Ok(_) => ("Ok".to_string(), false),
+            Err(v1::BinaryParseError::InvalidUtf8(_)) => ("InvalidUtf8".to_string(), got.is_incomplete()),
+            Err(v1::BinaryParseError::Parse(e)) => (v1_kind_name(e).to_string(), got.is_incomplete()),
+        };
+        if kind != want || incomplete || !got.is_complete() {
+            return (Some(Mismatch { case: hex(&input), expected: format!("terminal error {} (one element corrupted)", want), actual: format!("{} incomplete={}", kind, incomplete) }), n);
+        }
+        // the same through the auto-detecting parser and, for UTF-8 input, the text entry point
+        let auto = HeaderResult::parse(&input[..]);
+        if auto != HeaderResult::V1(got) || auto.is_incomplete() { return (Some(Mismatch { case: hex(&input), expected: format!("auto-detect: terminal {}", want), actual: format!("{:?}", auto) }), n); }
+        if let Ok(text) = std::str::from_utf8(&input) {
+            let gs = v1::Header::try_from(text);
+            let ks = match &gs { Ok(_) => "Ok".to_string(), Err(e) => v1_kind_name(e).to_string() };
+            if ks != want || gs.is_incomplete() { return (Some(Mismatch { case: hex(&input), expected: format!("text entry: terminal {}", want), actual: format!("{} incomplete={}", ks, gs.is_incomplete()) }), n); }
+        }
+    }
+    // v2 part: complete headers with exactly one invalid element (signature, one control nibble, length below the family size)
+    for c in v2_cases() {
+        if c.len() < 16 { continue; }
+        let len = (c[14] as usize) * 256 + c[15] as usize;
+        if c.len() < 16 + len { continue; }
+        let (v, cm, f, pr) = (c[12] & 0xF0, c[12] & 0x0F, c[13] & 0xF0, c[13] & 0x0F);
+        let fam_ok = [0x00u8, 0x10, 0x20, 0x30].contains(&f);
+        let bad = [c[..12] != SIG, v != 0x20, cm > 1, !fam_ok, pr > 2, fam_ok && len < fam_size(f)];
+        if bad.iter().filter(|b| **b).count() != 1 { continue; }
+        n += 1;
+        if let Some(m) = check_v2_lvl(&c, 2) { return (Some(m), n); }
+    }
+    (None, n)
+}
+
+/// C16: the entry points agree WITH EACH OTHER (no specification involved)
+fn check_c16_domain() -> (Option<Mismatch>, usize) {
+    let mut n = 0;
+    let mut cases = v1_cases();
+    for (c, _) in c12_v1_cases() { cases.push(c); }
+    for input in cases {
+        let text = match std::str::from_utf8(&input) { Ok(t) => t, Err(_) => continue };
+        n += 1;
+        let rb = v1::Header::try_from(&input[..]);
+        let rs = v1::Header::try_from(text);
+        let rh = text.parse::<v1::Header<'static>>();
+        let ra = text.parse::<v1::Addresses>();
+        // the window ends inside a multi-byte character <=> the byte entry point sees invalid UTF-8: then all must fail
+        let cut_inside = matches!(&rb, Err(v1::BinaryParseError::InvalidUtf8(_)));
+        let same = if cut_inside { rs.is_err() && rh.is_err() && ra.is_err() } else {
+            match (&rb, &rs) {
+                (Ok(a), Ok(b)) => a == b && rh.as_ref().ok() == Some(&b.to_owned()) && ra.as_ref().ok() == Some(&b.addresses),
+                (Err(v1::BinaryParseError::Parse(a)), Err(b)) => a == b && rh.as_ref().err() == Some(b) && ra.as_ref().err() == Some(b),
+                _ => false,
+            }
+        };
+        if !same {
+            return (Some(Mismatch { case: hex(&input), expected: "text, bytes and FromStr entry points agree".into(), actual: format!("bytes={:?} text={:?} FromStr<Header>={:?} FromStr<Addresses>={:?}", rb, rs, rh, ra) }), n);
+        }
+        if let Ok(h) = &rs { let o = h.to_owned(); if o != *h || o.to_string() != h.to_string() || o.protocol() != h.protocol() || o.addresses_str() != h.addresses_str() { return (Some(Mismatch { case: hex(&input), expected: "owned copy equals the original".into(), actual: format!("{:?} vs {:?}", o, h) }), n); } }
+    }
+    (None, n)
+}
+
+/// C06, last sentence: a buffer that is still a possible v2 header (the specification says "incomplete") is never
+/// handed to the text parser - the auto-detecting parser answers with an incomplete V2 result
+fn check_auto_abs(input: &[u8]) -> Option<Mismatch> {
+    let want = oracle_v2(input);
+    let inc = matches!(&want, V2Out::Reject(t) if t.starts_with("Incomplete(") || t.starts_with("Partial("));
+    if !inc { return None; }
+    let got = HeaderResult::parse(input);
+    let ok = matches!(&got, HeaderResult::V2(Err(e)) if e.is_incomplete()) && got.is_incomplete();
+    if ok { None } else { Some(Mismatch { case: hex(input), expected: "auto-detect: an incomplete V2 result (the buffer is still a possible v2 header)".into(), actual: format!("{:?}", got) }) }
+}
+
 fn run(prop: &str, one: Option<&str>) -> (Option<Mismatch>, usize) {
+    // every property is compared at ITS OWN strength: what the statement pins, nothing more
+    //   v1 level: C01 C04 C08 C15 -> acceptance + decoded result (+ views / formatting); C05 C18 -> + incomplete classification
+    //   v2 level: C02 C04 C13 C14 -> acceptance + decode + views; C05 -> + classification; C17 -> + the counts of incomplete results
+    //   C12 -> single-corruption cases with their exact blame; C16 -> the entry points against each other; C06 -> relative
+    let v1_lvl = |p: &str| -> Option<u8> { match p { "C01" | "C04" | "C08" | "C15" | "C03" => Some(0), "C05" | "C18" => Some(1), _ => None } };
+    let v2_lvl = |p: &str| -> Option<u8> { match p { "C02" | "C04" | "C13" | "C14" | "C03" => Some(0), "C05" | "C17" => Some(1), _ => None } };
     let mut n = 0usize;
     // C03 is about panics and the TLV item bound only: other disagreements are not its business
     let relevant = |m: &Mismatch| prop != "C03" || m.actual.starts_with("PANIC") || m.expected.contains("items, standard walk");
     macro_rules! sweep { ($cases:expr, $f:expr) => { for c in $cases { n += 1; if let Some(m) = $f(&c) { if relevant(&m) { return (Some(m), n); } } } } }
     if let Some(h) = one {
         let c = unhex(h);
-        let m = match prop { "C02" | "C14" | "C17" => check_v2(&c), "C11" => check_tlv(&c), "C06" => check_auto(&c).or_else(|| check_v2(&c)).or_else(|| check_v1(&c)), _ => check_v1(&c).or_else(|| check_v2(&c)).or_else(|| check_auto(&c)) };
-        return (m, 1);
+        let m = match prop {
+            "C11" => check_tlv(&c),
+            "C06" => check_auto(&c).or_else(|| check_auto_abs(&c)),
+            "C12" | "C16" => check_v1_lvl(&c, 2).or_else(|| check_v2_lvl(&c, 2)),
+            _ => v1_lvl(prop).and_then(|l| check_v1_lvl(&c, l)).or_else(|| v2_lvl(prop).and_then(|l| check_v2_lvl(&c, l))).or_else(|| if ["C04", "C05", "C06"].contains(&prop) { check_auto(&c) } else { None }),
+        };
+        return (m.filter(|m| relevant(m)), 1);
     }
-    let v1p = ["C01", "C03", "C04", "C05", "C08", "C12", "C15", "C16", "C18", "C06"];
-    let v2p = ["C02", "C03", "C04", "C05", "C12", "C13", "C14", "C17", "C06"];
-    if v1p.contains(&prop) { sweep!(v1_cases(), |c: &Vec<u8>| check_v1(c)); }
-    if v2p.contains(&prop) { sweep!(v2_cases(), |c: &Vec<u8>| check_v2(c)); }
+    if prop == "C12" { return check_c12_domain(); }
+    if prop == "C16" { return check_c16_domain(); }
+    if let Some(l) = v1_lvl(prop) { sweep!(v1_cases(), |c: &Vec<u8>| check_v1_lvl(c, l)); }
+    if let Some(l) = v2_lvl(prop) { sweep!(v2_cases(), |c: &Vec<u8>| check_v2_lvl(c, l)); }
     if prop == "C06" || prop == "C04" || prop == "C05" { sweep!(v1_cases().into_iter().chain(v2_cases()).collect::<Vec<_>>(), |c: &Vec<u8>| check_auto(c)); }
+    if prop == "C06" { sweep!(v2_cases(), |c: &Vec<u8>| check_auto_abs(c)); }
     if ["C11", "C03", "C07", "C13"].contains(&prop) { sweep!(tlv_cases(), |c: &Vec<u8>| check_tlv(c)); }
     if ["C07", "C09", "C10", "C13", "C20"].contains(&prop) { for (w, ops) in builder_histories() { n += 1; if let Some(m) = check_builder(w, &ops) { return (Some(m), n); } } n += 1; if let Some(m) = check_encoders() { return (Some(m), n); } }
     if prop == "C19" { n += 1; if let Some(m) = check_constructors() { return (Some(m), n); } }
